@@ -288,6 +288,34 @@ pub fn c03(opts: &Opts, out: &mut Out) {
     let sizes: Vec<usize> = if opts.thorough { vec![1, 2, 3, 5, 16, 255, 256, 257, 300, 511, 512, 513, 600, 1025, 2049] } else { vec![1, 2, 3, 16, 255, 256, 257, 300, 513] };
     let mut shapes = std::collections::BTreeSet::new();
     let mut nb = 0usize;
+    // capacity and aggregation anti-correlated (seed N3: the member with the most generators is not the member with
+    // the largest aggregate): every ordered pair of valid templates incl. extra (aggregation, capacity) shapes, and
+    // every order of a triple; own generator so that the batches composed below are unchanged
+    {
+        let mut rng2 = chacha(opts.seed, 33);
+        let mut extra: Vec<Tmpl> = vec![];
+        for (m, cap) in [(1usize, 8usize), (2, 4), (1, 16), (8, 8)] {
+            extra.push(make_valid(n, m, cap, t, false, 0, &mut rng2));
+        }
+        let pool: Vec<&Tmpl> = valid.iter().chain(extra.iter()).collect();
+        for a in &pool {
+            for b in &pool {
+                for action in [VerifyAction::VerifyOnly, VerifyAction::RecoverAndVerify] {
+                    check_batch(out, "C03", "pair-capacity-vs-aggregation", &[*a, *b], 2, 2, action);
+                    nb += 1;
+                }
+            }
+        }
+        // (1,8) (4,4) (2,2): capacity falls as aggregation rises
+        let tri = [&extra[0], &valid[4], &valid[2]];
+        for perm in [[0usize, 1, 2], [0, 2, 1], [1, 0, 2], [1, 2, 0], [2, 0, 1], [2, 1, 0]] {
+            let ms: Vec<&Tmpl> = perm.iter().map(|i| tri[*i]).collect();
+            check_batch(out, "C03", "triple-capacity-vs-aggregation", &ms, 3, 3, VerifyAction::VerifyOnly);
+            nb += 1;
+        }
+        shapes.insert((2, "pair-capacity-vs-aggregation", 0));
+        shapes.insert((3, "triple-capacity-vs-aggregation", 0));
+    }
     for &k in &sizes {
         let pick = |rng: &mut rand_chacha::ChaCha12Rng, pool: &Vec<Tmpl>| (rng.next_u32() as usize) % pool.len();
         // all valid
